@@ -228,3 +228,45 @@ Proof.
   - exfalso. vm_compute in Hd. discriminate Hd.
   - exists m. split; [exact Hg|]. intros Hac. apply Hiff in Hac. vm_compute in Hac. discriminate Hac.
 Qed.
+
+(** ** the chain through the run-time checker ([C02_sizedb_emitted_acyclic]) on the recursive
+    registry: its hypotheses hold, the checker accepts the parse of the emitted tokens, hence (by
+    the theorem, not by evaluating the boolean) the registry condition holds *)
+From V Require Import Model.Unparse Model.UnparseClosed Model.Shape Proofs.ShapeBool Proofs.ParseClosed
+  Proofs.SizedbItems Proofs.SizedbEmitted.
+
+Example sz_compact_seen : compact_wrapper_seen ex_set.
+Proof.
+  intros c Hc. cbn in Hc. inversion Hc; subst c. exists true, ["parity"; "Compact"].
+  split; [vm_compute; reflexivity|]. split; [vm_compute; reflexivity|].
+  split; [intros _; vm_compute; reflexivity|discriminate].
+Qed.
+
+Example sz_chain_hyps :
+  skeleton_consistentb sz_reg_ok ex_set = true /\
+  (exists m toks, generate sz_reg_ok ex_set (types_equal sz_reg_ok) = Ok m /\
+                  emit_module ex_set m = Ok toks /\ items_plain ex_set m = true /\
+                  prefix_freeb (map fst m) = true) /\
+  sizedb_emitted sz_reg_ok ex_set = Some true.
+Proof.
+  split; [vm_compute; reflexivity|]. split; [|vm_compute; reflexivity].
+  eexists _, _. split; [vm_compute; reflexivity|]. split; [vm_compute; reflexivity|].
+  split; vm_compute; reflexivity.
+Qed.
+
+Example sz_chain_by_theorem : by_value_acyclicb sz_reg_ok ex_set = true.
+Proof.
+  destruct sz_chain_hyps as (Hsk & (m & toks & Hg & He & Hp & Hpf) & Hs).
+  destruct (sizedb_emitted_acyclic sz_reg_ok ex_set (types_equal sz_reg_ok) m toks) as (pm & Hpm & Himp).
+  - exact sz_root_fresh.
+  - reflexivity.
+  - split; intros c Hc; cbn in Hc; inversion Hc; subst; reflexivity.
+  - apply skeleton_consistentb_sound. exact Hsk.
+  - exact Hg.
+  - exact He.
+  - exact Hp.
+  - apply prefix_freeb_sound. exact Hpf.
+  - exact sz_compact_seen.
+  - apply Himp. unfold sizedb_emitted in Hs. rewrite Hg, He, Hpm in Hs. injection Hs as Hb.
+    exact Hb.
+Qed.
